@@ -265,6 +265,29 @@ func compositeWidths(i int) {
 		fail("widths:W:extract", fmt.Sprintf("extracted %T", d), caseInfo)
 		return
 	}
+	// the same map with its entries in random order (the model sorts), read for CIDs in and out of the map
+	perm := e.Rand.Perm(len(keys))
+	var wm strings.Builder
+	for _, j := range perm {
+		fmt.Fprintf(&wm, " %d %s", keys[j], wbits(m[cid.CID(keys[j])]))
+	}
+	var qs, want []string
+	for k := 0; k < 8; k++ {
+		q := e.Rand.IntN(400)
+		if len(keys) > 0 && k%2 == 0 {
+			q = keys[e.Rand.IntN(len(keys))]
+		}
+		qs = append(qs, fmt.Sprint(q))
+		wv, ok := d2.Width[cid.CID(q)] // what the implementation reads back
+		if !ok {
+			wv = d2.DefaultWidth
+		}
+		want = append(want, fmt.Sprintf("%d:%s", q, wbits(wv)))
+	}
+	id = nextID()
+	e.Line("cases.txt", "%s WM %s %d%s %d %s", id, wbits(dw), len(keys), wm.String(), len(qs), strings.Join(qs, " "))
+	e.Line("impl.obs", "%s %s", id, strings.Join(want, ","))
+
 	for c, w := range m {
 		got, have := d2.Width[c]
 		if !have {
@@ -474,5 +497,8 @@ func widthTables() {
 		compositeWidths(i)
 		rawW(i)
 		simpleWidths(i)
+		vmetricsCase(i)
+		rawW2(i)
 	}
+	utf16Cases(e.Pick(300, 20000))
 }
